@@ -205,8 +205,13 @@ func ChildMain(p *Prop, tier string, seed uint64, k, w, n int, dir string, only 
 	if only >= 0 {
 		runOne(only)
 	} else {
-		for i := k; i < n; i += w {
-			runOne(i)
+		// cases are dealt to the children by a hash of their index, not by
+		// stride: special case families sit at regular index intervals and would
+		// otherwise all land on the same child
+		for i := 0; i < n; i++ {
+			if int(Mix(uint64(i), 0x5eed)%uint64(w)) == k {
+				runOne(i)
+			}
 		}
 	}
 	res.Cases = st.Cases
